@@ -535,8 +535,13 @@ def _write_previous_jobs(jobs):
         d = os.path.join(common.workdir(), "prevjobs", key)
         for i, results in enumerate(jobs):
             os.makedirs(os.path.join(d, f"job{i + 1}"), exist_ok=True)
-            with open(os.path.join(d, f"job{i + 1}", "results.json"), "w") as f:
-                json.dump({"tests": [dict(r) for r in results]}, f)
+            final = os.path.join(d, f"job{i + 1}", "results.json")
+            if not os.path.exists(final):
+                # several explorer processes may need the same file at the same time: write it aside and publish it atomically
+                tmp = f"{final}.{os.getpid()}.tmp"
+                with open(tmp, "w") as f:
+                    json.dump({"tests": [dict(r) for r in results]}, f)
+                os.replace(tmp, final)
         _prev_dirs[key] = d
     return _prev_dirs[key]
 
